@@ -340,10 +340,14 @@ fn legal_size(w: &World, size: usize, nrefs: usize, sem: u8) -> (usize, u8) {
             size = cap.max(obj::HEADER_BYTES + 8 * nrefs);
         }
     }
-    if sem == SEM_DEFAULT && size > w.plan.max_non_los {
+    // KF-MS-ALIGNED-LIMIT: native mark-sweep cannot serve a request whose size is within
+    // MAX_ALIGNMENT - MIN_ALIGNMENT of max_non_los_default_alloc_bytes when align > MIN_ALIGNMENT
+    // (the padded size exceeds the largest size class); only probe runs go there.
+    let limit = if w.plan.name == "MarkSweep" && !w.spec.cfg.kf_probe { w.plan.max_non_los - 16 } else { w.plan.max_non_los };
+    if sem == SEM_DEFAULT && size > limit {
         sem = if w.plan.sem_ok[SEM_LOS as usize] { SEM_LOS } else { sem };
         if sem == SEM_DEFAULT {
-            size = w.plan.max_non_los & !7;
+            size = limit & !7;
         }
     }
     (size, sem)
